@@ -385,6 +385,109 @@ def classify_random_exception(d, a, b):
     return "C02-random-raises"
 
 
+# ---------------------------------------------------------------------------------------------
+# doubles as data (AFModel/PriorDbl.lean): gate + exact rounding + clamp, CPython round, IEEE order
+
+
+def bits_same(a, b):
+    """bit-exact equality of two floats (NaNs equal to each other, -0.0 != 0.0)"""
+    return (a != a and b != b) or f2h(a) == f2h(b)
+
+
+def dbl_layer(ctx, d, p, cfg, m, m2, idx, raw, out, ign, case_u):
+    """`finishD` (the theorem-carrying model of gate/round/clamp on `Dbl`) against the real value_for"""
+    if not cfg.get("repaired", True):
+        return
+    for j, i in enumerate(idx):
+        for name, mm, real in (("value_for = finishD(message.value_for)", m, out[i]),
+                               ("value_for(ignore) = finishD(message.value_for)", m2, ign[i])):
+            fd = mm.get("finD", [])
+            if j >= len(fd):
+                ctx.disagree(name, case_u(i), num_or(real), "missing")
+                continue
+            got = out_of(fd[j])
+            if isinstance(got, str) or isinstance(real, str):
+                ok = got == real
+            else:
+                ok = bits_same(got, real) or (got == 0.0 and real == 0.0 and d["kind"] != "U")
+            if not ok:
+                ctx.disagree(name, case_u(i), num_or(real), num_or(got))
+            else:
+                ctx.hit("gateD:" + ("limit" if got == "limit" else "ok"))
+    if d["kind"] == "U" and hasattr(p, "_decimal_places"):
+        if int(p._decimal_places) != int(m.get("places", -1)):
+            ctx.disagree("_decimal_places = decimalPlaces", {"prior": canon_prior(d)}, int(p._decimal_places),
+                         m.get("places"))
+
+
+def round_tie(ctx, d, p, values):
+    """`pyRoundD n x` = CPython `round(x, n)` bit for bit, on the values this prior produced, on their
+    neighbours and on decimal ties; the order of `Dbl` = Python's `<=`, `<` on the same doubles"""
+    rng = ctx.rng
+    places = int(getattr(p, "_decimal_places", 14)) if d["kind"] == "U" else 14
+    xs = [v for v in values if isinstance(v, float)]
+    xs = rng.sample(xs, min(len(xs), 6))
+    pool = []
+    for x in xs:
+        pool.append((places, x))
+        if math.isfinite(x):
+            pool.append((places, math.nextafter(x, INF)))
+            pool.append((rng.choice([0, 1, 2, 13, 14, 15, 16, 17, 20, 29, 100, 323]), -x))
+    # decimal ties and near-ties: j + 1/2 units of the n-th place, and their neighbours
+    for _ in range(4):
+        n = rng.choice([0, 1, 2, 3, 14, 14, 15, places])
+        j = rng.randrange(-10 ** rng.randint(0, 15), 10 ** rng.randint(0, 15))
+        try:
+            t = (j + 0.5) / 10.0 ** n if n < 300 else (j + 0.5) * 10.0 ** -n
+        except OverflowError:
+            continue
+        pool.append((n, t))
+        pool.append((n, math.nextafter(t, rng.choice([-INF, INF]))))
+    pool.append((rng.choice([0, 14, 300, 323]), rng.choice([5e-324, -5e-324, 2.2250738585072014e-308,
+                                                             1.7976931348623157e308, -1.7976931348623157e308,
+                                                             INF, -INF, 0.0, -0.0, 2.0 ** 52 + 0.5, 2.0 ** 53])))
+    m = ctx.lean.ask({"p": "C02", **wire_prior(d), "us": [],
+                      "rounds": [[n, f2h(x)] for n, x in pool]})
+    if "driver_error" in m:
+        ctx.disagree("driver", {"prior": canon_prior(d)}, None, m.get("driver_error"))
+        return
+    for (n, x), mh in zip(pool, m["rounds"]):
+        try:
+            want = round(x, n)
+        except OverflowError:
+            want = "exc:OverflowError"
+        got = h2f(mh)
+        if isinstance(want, str) or not bits_same(got, want):
+            ctx.disagree("round(x, n) = pyRoundD n x", {"x": num(x), "n": n}, num_or(want), num(got))
+        else:
+            ctx.hit("round-tie")
+        # the theorem's statement evaluated on the real rounding: finite stays finite
+        if not isinstance(want, str) and math.isfinite(x) and not math.isfinite(want):
+            ctx.disagree("round(x, n) finite", {"x": num(x), "n": n}, num(want), num(got))
+    # order
+    vals = [x for _, x in pool[:8]] + [d["lo"], d["hi"], 0.0, -0.0, math.nan, INF, -INF]
+    pairs = [(rng.choice(vals), rng.choice(vals)) for _ in range(10)]
+    m = ctx.lean.ask({"p": "C02", **wire_prior(d), "us": [], "cmp": [[f2h(a), f2h(b)] for a, b in pairs]})
+    if "driver_error" in m:
+        ctx.disagree("driver", {"prior": canon_prior(d)}, None, m.get("driver_error"))
+        return
+    for (a, b), mc in zip(pairs, m["cmp"]):
+        if [a <= b, a < b] != [bool(mc[0]), bool(mc[1])]:
+            ctx.disagree("Dbl order = float order", {"a": num(a), "b": num(b)}, [a <= b, a < b], mc)
+    # monotonicity of the real rounding on the sorted sample (the theorem's statement on the real function)
+    by_n = {}
+    for n, x in pool:
+        if x == x:
+            by_n.setdefault(n, []).append(x)
+    for n, lst in by_n.items():
+        lst.sort()
+        rs = [round(x, n) for x in lst]
+        for x0, x1, r0, r1 in zip(lst, lst[1:], rs, rs[1:]):
+            if r0 > r1:
+                ctx.fail("C02-round-not-monotone", f"round({x0!r}, {n}) = {r0!r} > round({x1!r}, {n}) = {r1!r}",
+                         {"prior": canon_prior(d), "units": [], "seeds": [], "round": [n, num(x0), num(x1)]})
+
+
 def one_prior(ctx, d, units=None, seeds=None, cfg=None, label="gen", mp_queue=None):
     cfg = cfg or {"repaired": True}
     rng = ctx.rng
@@ -458,6 +561,9 @@ def one_prior(ctx, d, units=None, seeds=None, cfg=None, label="gen", mp_queue=No
             ctx.hit("gate:" + ("limit" if fin == "limit" else "ok"))
         if not same(fin_ign, ign[i]):
             ctx.disagree("value_for(ignore) = finish(message.value_for)", case_u(i), num_or(ign[i]), num_or(fin_ign))
+
+    dbl_layer(ctx, d, p, cfg, m, m2, idx, raw, out, ign, case_u)
+    round_tie(ctx, d, p, [raw[i] for i in idx] + [o for o in out if isinstance(o, float)])
 
     # ---- correspondence (tolerance): transform stack on Float
     for j, i in enumerate(idx):
